@@ -9,6 +9,7 @@ import (
 
 	"verifharness/hx"
 
+	"github.com/iotaledger/hive.go/runtime/debug"
 	"github.com/iotaledger/hive.go/runtime/syncutils"
 )
 
@@ -329,7 +330,15 @@ func randomSM(r *hx.Run, rng *hx.Rng, sub uint64) {
 	r.Case(sub)
 	w := newSMWorld(r, n)
 	defer retire(w.actors)
-	r.Line(fmt.Sprintf("sm %d", n), "ok")
+	hdr := fmt.Sprintf("sm %d", n)
+	if rng.Chance(1, 8) {
+		// debug mode: Lock/RLock start a deadlock-detector goroutine per call; the protocol must be the same
+		debug.SetEnabled(true)
+		defer debug.SetEnabled(false)
+		hdr += " debug"
+		r.Count("sm-case:debug-enabled")
+	}
+	r.Line(hdr, "ok")
 	var key []string
 	emit := func(a arrival, obs string) {
 		line := fmt.Sprintf("a %d %s %s", a.t, a.op, obs)
